@@ -81,6 +81,10 @@ func c18Shapes() []c18Shape {
 	// two declared paths that start at the same dependency dataset (address via "home" and via "work")
 	out = append(out, c18Shape{Name: "two-paths-one-dep", Deps: []c18Dep{
 		{DS: "D", Joins: []c18Join{{"M", "p", false}}}, {DS: "D", Joins: []c18Join{{"M", "q", false}}}}})
+	// the same predicate between the same two datasets followed in both directions (two dependencies that differ only
+	// in the direction of their hop)
+	out = append(out, c18Shape{Name: "both-directions", Deps: []c18Dep{
+		{DS: "D", Joins: []c18Join{{"M", "p", false}}}, {DS: "D", Joins: []c18Join{{"M", "p", true}}}}})
 	out = append(out, c18Shape{Name: "shared-link", Deps: []c18Dep{
 		{DS: "D", Joins: []c18Join{{"L", "p", false}, {"M", "q", false}}},
 		{DS: "E", Joins: []c18Join{{"L", "p", true}, {"M", "q", false}}},
@@ -141,6 +145,7 @@ type c18Op struct {
 	Del  bool                `json:"del,omitempty"`
 	N    int                 `json:"n,omitempty"` // batch size of the runs
 	F    int                 `json:"f,omitempty"` // runfail: the sink rejects its F-th call of a single run
+	W    *c18Op              `json:"w,omitempty"` // runw: the write that lands while the sink handles call F of a single run
 }
 
 func (o c18Op) String() string { b, _ := json.Marshal(o); return string(b) }
@@ -223,6 +228,25 @@ func c18Alphabet(s c18Shape, batches []int) []c18Op {
 	}
 	// one run whose sink fails at its first / second call (batch size 1: one entity per call)
 	ops = append(ops, c18Op{K: "runfail", N: 1, F: 1}, c18Op{K: "runfail", N: 1, F: 2})
+	// one run during which entity 1 of a declared dependency dataset is rewired to target 2 / changes a property
+	seen := map[string]bool{}
+	for _, d := range s.Deps {
+		if seen[d.DS] {
+			continue
+		}
+		seen[d.DS] = true
+		holds := s.holds(d.DS)
+		keep, rewire := map[string][]string{}, map[string][]string{}
+		for pr, t := range holds {
+			keep[pr] = []string{c18IDs(t)[0]}
+			rewire[pr] = []string{c18IDs(t)[1]}
+		}
+		id := c18IDs(d.DS)[0]
+		if len(holds) > 0 {
+			ops = append(ops, c18Op{K: "runw", N: 1, F: 1, W: &c18Op{K: "w", DS: d.DS, ID: id, V: 1, Refs: rewire}})
+		}
+		ops = append(ops, c18Op{K: "runw", N: 1, F: 1, W: &c18Op{K: "w", DS: d.DS, ID: id, V: 2, Refs: keep}})
+	}
 	return ops
 }
 
@@ -258,6 +282,13 @@ func (r *recSink) processEntities(runner *Runner, entities []*server.Entity) err
 	for range entities {
 		r.at = append(r.at, at)
 	}
+	if os.Getenv("VERIF_C18_DEBUG") != "" {
+		var l []string
+		for _, e := range entities {
+			l = append(l, e.ID)
+		}
+		fmt.Fprintf(os.Stderr, "  sink call %d at commit index %d: %v\n", r.calls, at, l)
+	}
 	return r.inner.processEntities(runner, entities)
 }
 
@@ -289,6 +320,8 @@ type c18Hist struct {
 	initW     *c18Op
 	initAt    int
 	initDone  bool
+	// lastRunCommit: model commit index when the last single run (runw) started, -1 if none since the last fixpoint
+	lastRunCommit int
 }
 
 func (c *c18Hist) jobConfig(batch int) []byte {
@@ -526,19 +559,23 @@ func (c *c18Hist) runToFixpoint(check bool, label string) (herr string) {
 			declared, implicit := c.shape.allDeps()
 			for k, dep := range append(append([]c18Dep{}, declared...), implicit...) {
 				dd := m.Datasets[dep.DS]
-				changed := map[string]int{}
 				for _, v := range dd.Feed[c.fixLen[dep.DS]:] {
-					changed[v.ID] = v.Commit
-				}
-				for x, commit := range changed {
+					x, commit := v.ID, v.Commit
 					for id := range c.reach(x, dep, -1) {
-						if _, ok := mainView[id]; ok {
+						// a main entity that is deleted has been emitted as deleted; the joins do not return deleted entities
+						if mv, ok := mainView[id]; ok && !mv.Deleted {
 							need(id, fmt.Sprintf("connected now to %s (changed in %s) through %v", x, dep.DS, dep.Joins), commit)
 						}
 					}
 					if k < len(declared) && len(dep.Joins) > 0 && !dep.Joins[0].Inv && c.fixLen[dep.DS] > 0 {
-						for id := range c.reach(x, dep, c.fixCommit) {
-							if _, ok := mainView[id]; ok {
+						// "the previous run": the previous fixpoint, or - for a change that landed while or after a single
+						// run (runw) was under way - that run
+						prevAt := c.fixCommit
+						if c.lastRunCommit >= 0 && commit > c.lastRunCommit {
+							prevAt = c.lastRunCommit
+						}
+						for id := range c.reach(x, dep, prevAt) {
+							if mv, ok := mainView[id]; ok && !mv.Deleted {
 								need(id, fmt.Sprintf("was connected at the previous run to %s (changed in %s) through a first outgoing hop of %v", x, dep.DS, dep.Joins), commit)
 							}
 						}
@@ -553,10 +590,21 @@ func (c *c18Hist) runToFixpoint(check bool, label string) (herr string) {
 		}
 		sort.Strings(ids)
 		for _, id := range ids {
-			if !emitted[id] {
-				c.chk.Fail("C18:not-emitted:"+id, fmt.Sprintf("%s: after catching up (%d runs) the job never emitted %s (%s); emitted %v", label, runs, id, required[id], sortedKeys(emitted)))
-			} else if lastAt[id] < after[id] {
-				c.chk.Fail("C18:not-emitted-after-change:"+id, fmt.Sprintf("%s: after catching up (%d runs) the job emitted %s only before the change that requires it (%s)", label, runs, id, required[id]))
+			// input class of the recorded known finding: the requirement comes from the "as it stood at the previous run"
+			// clause and the previous run was a single run that did not drain the dependency's pending changes (the
+			// implementation looks at the state as of the last change that run processed, not as of the run)
+			kf := c.lastRunCommit >= 0 && strings.HasPrefix(required[id], "was connected at the previous run")
+			if !emitted[id] || lastAt[id] < after[id] {
+				clause := "C18:not-emitted:" + id
+				what := fmt.Sprintf("%s: after catching up (%d runs) the job never emitted %s (%s); emitted %v", label, runs, id, required[id], sortedKeys(emitted))
+				if emitted[id] {
+					clause = "C18:not-emitted-after-change:" + id
+					what = fmt.Sprintf("%s: after catching up (%d runs) the job emitted %s only before the change that requires it (%s)", label, runs, id, required[id])
+				}
+				if kf {
+					clause = "C18:KF-previous-run-means-last-processed-change:" + id
+				}
+				c.chk.Fail(clause, what)
 			}
 		}
 		// ---- tokens ----
@@ -580,6 +628,7 @@ func (c *c18Hist) runToFixpoint(check bool, label string) (herr string) {
 		}
 	}
 	// new fixpoint
+	c.lastRunCommit = -1
 	c.first = false
 	c.fixCommit = m.CommitIndex()
 	c.fixLen = map[string]int{}
@@ -600,7 +649,7 @@ func c18Replay(task engine.SeqTask) (res engine.SeqResult) {
 	}()
 	jw := jWorld()
 	h := jw.W.NewHist()
-	c := &c18Hist{jw: jw, h: h, shape: p.Shape, latestOnly: p.LatestOnly, first: true, fixLen: map[string]int{}, initW: p.InitW, initAt: p.InitAt}
+	c := &c18Hist{jw: jw, h: h, shape: p.Shape, latestOnly: p.LatestOnly, first: true, fixLen: map[string]int{}, initW: p.InitW, initAt: p.InitAt, lastRunCommit: -1}
 	jw.Jobs++
 	c.id = fmt.Sprintf("c18-%s-%d", h.Tag, jw.Jobs)
 	c.chk = &server.VCheck{H: h}
@@ -688,6 +737,56 @@ func c18Replay(task engine.SeqTask) (res engine.SeqResult) {
 				// the sink was not called that often: the failure was not injected, this is a plain run
 				res.Skip, res.Key = true, "skip"
 				return
+			}
+		case "runw":
+			// one run during which a write lands (while the sink handles its F-th call)
+			if i == 0 {
+				res.Skip, res.Key = true, "skip"
+				return
+			}
+			{
+				var prevOp c18Op
+				_ = json.Unmarshal(task.Hist[i-1], &prevOp)
+				if prevOp.K != "w" {
+					res.Skip, res.Key = true, "skip"
+					return
+				}
+			}
+			if cur := h.M.Datasets[op.W.DS].Latest(op.W.ID); cur != nil && cur.C.Equal(op.W.content()) {
+				res.Skip, res.Key = true, "skip"
+				return
+			}
+			if err := c.setBatch(op.N); err != nil {
+				res.HarnessEr = err.Error()
+				return
+			}
+			{
+				real := c.jb.pipeline.spec().sink
+				rec := &recSink{inner: real, got: c.pending, at: c.pendingAt, m: c.h.M}
+				c.lastRunCommit = c.h.M.CommitIndex()
+				landed := false
+				var werr error
+				rec.onCall = func(call int) {
+					if call == op.F && !landed {
+						landed = true
+						werr = c.write(*op.W)
+					}
+				}
+				c.jb.pipeline.spec().sink = rec
+				pn := runJob(c.jb)
+				c.jb.pipeline.spec().sink = real
+				c.pending, c.pendingAt = rec.got, rec.at
+				if pn != "" {
+					c.chk.Fail("C18:run-panics", "the job run with a concurrent write panicked: "+pn)
+				}
+				if werr != nil {
+					res.HarnessEr = "mid-run write: " + werr.Error()
+					return
+				}
+				if !landed {
+					res.Skip, res.Key = true, "skip"
+					return
+				}
 			}
 		case "run":
 			if i > 0 {
@@ -778,7 +877,7 @@ func init() {
 		}
 	})
 	engine.RegisterCheck("C18", func(r *engine.Run) {
-		r.Rule = "SEQ: for every join shape (2 one-hop, 4 two-hop and 8 three-hop direction patterns, a path through the main dataset in the middle, and two declared dependencies sharing a link dataset; declared in JSON and parsed by the real scheduler) and every batch size in the stated set (and, for shapes with an outgoing first hop of at most two hops, also with the source declared LatestOnly): every history up to the stated depth over {7 entity variants per dataset: property change, link to target 1/2/both/none, delete, second entity; run to fixpoint with batch size 1/2, one run whose sink rejects its 1st/2nd call} starting from a populated graph on which the job has caught up (also with one dependency write - property change or rewiring - landing while that first catch-up is between its pages: the entity it requires must be emitted AFTER the write); every history ends with a run-to-fixpoint (the job is run until its token stops changing) whose emitted entities (recording double around the real DevNullSink) must contain every main entity that changed, every main entity connected now through the join path to a dependency or link entity changed since the previous fixpoint, and - for a first outgoing hop - connected as of the previous fixpoint; emitted entities must be versions of main-dataset entities with the latest version among them; tokens never go back nor beyond the end. distinct = distinct canonical end states"
+		r.Rule = "SEQ: for every join shape (2 one-hop, 4 two-hop and 8 three-hop direction patterns, a path through the main dataset in the middle, and two declared dependencies sharing a link dataset; declared in JSON and parsed by the real scheduler) and every batch size in the stated set (and, for shapes with an outgoing first hop of at most two hops, also with the source declared LatestOnly): every history up to the stated depth over {7 entity variants per dataset: property change, link to target 1/2/both/none, delete, second entity; run to fixpoint with batch size 1/2, one run whose sink rejects its 1st/2nd call, one run during which a dependency entity is rewired or changed while the sink handles its first call} starting from a populated graph on which the job has caught up (also with one dependency write - property change or rewiring - landing while that first catch-up is between its pages: the entity it requires must be emitted AFTER the write); every history ends with a run-to-fixpoint (the job is run until its token stops changing) whose emitted entities (recording double around the real DevNullSink) must contain every main entity that changed, every main entity connected now through the join path to a dependency or link entity changed since the previous fixpoint, and - for a first outgoing hop - connected as of the previous fixpoint; emitted entities must be versions of main-dataset entities with the latest version among them; tokens never go back nor beyond the end. distinct = distinct canonical end states"
 		r.Assumptions = []string{"entity ids are distinct per dataset (an id living in two datasets of the chain is outside)", "apart from the one dependency write injected between two pages of the first catch-up, no write happens while the job runs: the graph as it stands when the job runs is the model's current graph", "track_queries (JavaScript) registration is not exercised, only declared dependencies"}
 		shapes := c18Shapes()
 		type cfg struct {
